@@ -3,7 +3,7 @@ from . import gen
 from .runner import run_scenario
 from .util import digest
 
-BUDGET = {'quick': 60.0, 'thorough': 600.0}
+BUDGET = {'quick': 75.0, 'thorough': 600.0}
 # (a property's budget is split over its campaigns by weight: properties
 # with many campaigns get more wall time)
 BUDGET_SCALE = {'C10': 1.75, 'C03': 1.75, 'C01': 1.5, 'C04': 1.5,
